@@ -125,11 +125,11 @@ package v2
 //@     invariant -1 <= rangeindex#3 && rangeindex#3 < len(config.Relays) && config.Relays == old(config.Relays)
 //@     invariant forall k int {config.Relays[k]} :: 0 <= k && k < len(config.Relays) ==> config.Relays[k].Grace == (k <= rangeindex#3 ? deref(proposerConfig.Grace) : prev(config.Relays[k]).Grace)
 //@   loop 4
-//@     invariant forall d *decimal.Decimal {d.value} :: d > 0 ==> d.value == old(d.value) && d.exp == old(d.exp)
+//@     invariant forall d *decimal.Decimal {d.value} :: d > 0 && !fresh(d) ==> d.value == old(d.value) && d.exp == old(d.exp)
 //@     invariant -1 <= rangeindex#4 && rangeindex#4 < len(config.Relays) && config.Relays == old(config.Relays)
 //@     invariant forall k int {config.Relays[k]} :: 0 <= k && k < len(config.Relays) ==> config.Relays[k].MinValue == (k <= rangeindex#4 ? deref(proposerConfig.MinValue) : prev(config.Relays[k]).MinValue)
 //@   loop 5
-//@     invariant forall d *decimal.Decimal {d.value} :: d > 0 ==> d.value == old(d.value) && d.exp == old(d.exp)
+//@     invariant forall d *decimal.Decimal {d.value} :: d > 0 && !fresh(d) ==> d.value == old(d.value) && d.exp == old(d.exp)
 //@     invariant -1 <= rangeindex#5 && rangeindex#5 < len(config.Relays) && (proposerConfig.ResetRelays ==> len(config.Relays) == 0) && (!proposerConfig.ResetRelays ==> config.Relays == old(config.Relays))
 //@     invariant forall m int {relays[m]} :: 0 <= m && m < len(relays) ==> relays[m] != nil && 0 <= src[m] && src[m] <= rangeindex#5 && relays[m] == config.Relays[src[m]] && !fresh(relays[m]) && !proposerConfig.ResetRelays && !disabledIn(proposerConfig, relays[m].Address) && relays[m].Address == prev(relays[m]).Address && inheritedOK(proposerConfig, relays[m], prev(relays[m]).FeeRecipient, prev(relays[m]).GasLimit, prev(relays[m]).Grace, prev(relays[m]).MinValue, prev(relays[m]).PublicKey)
 //@     invariant forall k int {config.Relays[k]} :: rangeindex#5 < k && k < len(config.Relays) ==> config.Relays[k].Address == prev(config.Relays[k]).Address && config.Relays[k].PublicKey == prev(config.Relays[k]).PublicKey && config.Relays[k].FeeRecipient == orFee(proposerConfig.FeeRecipient, prev(config.Relays[k]).FeeRecipient) && config.Relays[k].GasLimit == orGas(proposerConfig.GasLimit, prev(config.Relays[k]).GasLimit) && config.Relays[k].Grace == orGrace(proposerConfig.Grace, prev(config.Relays[k]).Grace) && config.Relays[k].MinValue == orMin(proposerConfig.MinValue, prev(config.Relays[k]).MinValue)
@@ -137,7 +137,7 @@ package v2
 //@     invariant forall a string {in(updated, a)} :: in(updated, a) ==> 0 <= uw[a] && uw[a] <= rangeindex#5 && config.Relays[uw[a]].Address == a
 //@     invariant forall j int {pos5[j]} :: 0 <= j && j <= rangeindex#5 && !disabledIn(proposerConfig, config.Relays[j].Address) ==> 0 <= pos5[j] && pos5[j] < len(relays) && relays[pos5[j]] == config.Relays[j]
 //@   loop 6
-//@     invariant forall d *decimal.Decimal {d.value} :: d > 0 ==> d.value == old(d.value) && d.exp == old(d.exp)
+//@     invariant forall d *decimal.Decimal {d.value} :: d > 0 && !fresh(d) ==> d.value == old(d.value) && d.exp == old(d.exp)
 //@     invariant (proposerConfig.ResetRelays ==> len(config.Relays) == 0) && (!proposerConfig.ResetRelays ==> config.Relays == old(config.Relays))
 //@     invariant forall j int {in(updated, config.Relays[j].Address)} :: 0 <= j && j < len(config.Relays) ==> in(updated, config.Relays[j].Address)
 //@     invariant forall j int {pos5[j]} {config.Relays[j]} :: 0 <= j && j < len(config.Relays) && !disabledIn(proposerConfig, config.Relays[j].Address) ==> 0 <= pos5[j] && pos5[j] < len(relays) && relays[pos5[j]] == config.Relays[j]
@@ -153,7 +153,7 @@ package v2
 //@   // fallback values; no relay that the proposer entry disables is among them
 //@   ensures forall m int {config.Relays[m]} :: 0 <= m && m < len(config.Relays) ==> config.Relays[m] != nil && !disabledIn(proposerConfig, config.Relays[m].Address) && (fresh(config.Relays[m]) ? addedOK(e, proposerConfig, config.Relays[m], fallbackFeeRecipient, fallbackGasLimit) : (!proposerConfig.ResetRelays && config.Relays[m].Address == prev(config.Relays[m]).Address && inheritedOK(proposerConfig, config.Relays[m], prev(config.Relays[m]).FeeRecipient, prev(config.Relays[m]).GasLimit, prev(config.Relays[m]).Grace, prev(config.Relays[m]).MinValue, prev(config.Relays[m]).PublicKey)))
 //@   // only the minimum values inside the relay settings change, never the separately allocated ones of the configuration
-//@   ensures forall d *decimal.Decimal {d.value} :: d > 0 ==> d.value == old(d.value) && d.exp == old(d.exp)
+//@   ensures forall d *decimal.Decimal {d.value} :: d > 0 && !fresh(d) ==> d.value == old(d.value) && d.exp == old(d.exp)
 //@   // a relay that is not new is one of the relays that were there before
 //@   ensures forall m int {config.Relays[m]} :: 0 <= m && m < len(config.Relays) && !fresh(config.Relays[m]) ==> exists j int :: 0 <= j && j < len(old(config.Relays)) && old(config.Relays)[j] == config.Relays[m]
 //@   // an added relay never repeats the address of an inherited one
@@ -194,7 +194,7 @@ package v2
 //@   ensures result == nil && mi == -1 ==> calls(setProposerConfigOptions) == 0 && (forall j int {e.Proposers[j]} :: 0 <= j && j < len(e.Proposers) ==> !matchP(e.Proposers[j], acctNameOf(account), pubkey))
 //@   ensures mi != -1 ==> result == nil && 0 <= mi && mi < len(e.Proposers) && matchP(e.Proposers[mi], acctNameOf(account), pubkey) && (forall j int {e.Proposers[j]} :: 0 <= j && j < mi ==> !matchP(e.Proposers[j], acctNameOf(account), pubkey))
 //@   // only the minimum values inside the relay settings change, never the separately allocated ones of the configuration
-//@   ensures forall d *decimal.Decimal {d.value} :: d > 0 ==> d.value == old(d.value) && d.exp == old(d.exp)
+//@   ensures forall d *decimal.Decimal {d.value} :: d > 0 && !fresh(d) ==> d.value == old(d.value) && d.exp == old(d.exp)
 //@   ensures mi == -1 ==> config.FeeRecipient == old(config.FeeRecipient) && config.Relays == old(config.Relays) && (forall k int {config.Relays[k]} :: 0 <= k && k < len(config.Relays) ==> config.Relays[k].Address == prev(config.Relays[k]).Address && config.Relays[k].PublicKey == prev(config.Relays[k]).PublicKey && config.Relays[k].FeeRecipient == prev(config.Relays[k]).FeeRecipient && config.Relays[k].GasLimit == prev(config.Relays[k]).GasLimit && config.Relays[k].Grace == prev(config.Relays[k]).Grace && config.Relays[k].MinValue == prev(config.Relays[k]).MinValue)
 //@   ensures mi != -1 ==> config.FeeRecipient == orFee(e.Proposers[mi].FeeRecipient, old(config.FeeRecipient))
 //@   ensures mi != -1 ==> forall m int {config.Relays[m]} :: 0 <= m && m < len(config.Relays) ==> config.Relays[m] != nil && !disabledIn(e.Proposers[mi], config.Relays[m].Address) && (fresh(config.Relays[m]) ? addedOK(e, e.Proposers[mi], config.Relays[m], fallbackFeeRecipient, fallbackGasLimit) : (!e.Proposers[mi].ResetRelays && config.Relays[m].Address == prev(config.Relays[m]).Address && inheritedOK(e.Proposers[mi], config.Relays[m], prev(config.Relays[m]).FeeRecipient, prev(config.Relays[m]).GasLimit, prev(config.Relays[m]).Grace, prev(config.Relays[m]).MinValue, prev(config.Relays[m]).PublicKey)))
